@@ -1,14 +1,15 @@
-\* C17: concurrent handshakes sharing one configuration object, next to cache maintenance
+\* C17 thorough (0): 3 goroutines (map writer / entry user / maintenance) x <= 2 operations over 2 ids,
+\* every interleaving of critical-section steps
 SPECIFICATION Spec
 CONSTANTS
   Gor = {"g1", "g2", "g3"}
   Nobody = Nobody
-  Ids = {"i1"}
+  Ids = {"i1", "i2"}
   MaxOps = 2
   MaxOpsOf <- LimitsAll
   MaxVer = 1
-  OpsOf <- RolesHandshake
-  InitKinds = {"dead"}
+  OpsOf <- RolesQuick
+  InitKinds = {"live", "dead"}
   StoreExp = {"live"}
   Bug = {}
 INVARIANTS TypeOK LocksetDiscipline AccessRelationRespected NoTornExpiry NoLostInvalidate RefinesSeq Linearizable HandshakeUndisturbed
